@@ -6,6 +6,8 @@ package sqlgen
 import (
 	"database/sql"
 	"database/sql/driver"
+	"errors"
+	"time"
 
 	"github.com/samsarahq/thunder/internal/zzverif/nondet"
 )
@@ -277,4 +279,129 @@ func VerifC13Witness() {
 	if err == nil && len(vals) == 21 {
 		nondet.Assert(false, "reachability")
 	}
+}
+
+// ---- columns outside the 21-column struct: floats, time, string/binary tags
+
+type c13Text struct{ A, B byte }
+
+func (t c13Text) MarshalText() ([]byte, error) { return []byte{'t', t.A, t.B}, nil }
+func (t *c13Text) UnmarshalText(b []byte) error {
+	if len(b) != 3 || b[0] != 't' {
+		return errors.New("bad text")
+	}
+	t.A, t.B = b[1], b[2]
+	return nil
+}
+
+type c13Bin struct{ X uint8 }
+
+func (t c13Bin) MarshalBinary() ([]byte, error) { return []byte{'b', t.X}, nil }
+func (t *c13Bin) UnmarshalBinary(b []byte) error {
+	if len(b) != 2 || b[0] != 'b' {
+		return errors.New("bad binary")
+	}
+	t.X = b[1]
+	return nil
+}
+
+type c13XRow struct {
+	Id   int64 `sql:",primary"`
+	F64  float64
+	F32  float32
+	PF   *float64
+	ZF   float64 `sql:",implicitnull"`
+	T    time.Time
+	PT   *time.Time
+	Txt  c13Text  `sql:",string"`
+	PTxt *c13Text `sql:",string"`
+	Bin  c13Bin   `sql:",binary"`
+	PBin *c13Bin  `sql:",binary"`
+}
+
+// VerifC13Extras: the column kinds the 21-column struct leaves out: float64 /
+// float32 / *float64 / implicit-null float (enumerated values, exact in both
+// widths), time.Time and *time.Time (epoch, a 2023 instant, the zero time;
+// handed back as time.Time, the parseTime=true driver form), string-tagged and
+// binary-tagged marshaler types by value and by pointer with a symbolic
+// payload byte, text handed back as []byte or string.
+func VerifC13Extras() {
+	s := NewSchema()
+	s.MustRegisterType("xrows", UniqueId, c13XRow{})
+	fl := []float64{0, 1.5, -2.25, 3e10}
+	tm := []time.Time{time.Unix(0, 0).UTC(), time.Unix(1700000000, 0).UTC(), time.Time{}}
+	v := nondet.Choice("variant", 6)
+	x := &c13XRow{
+		Id:  nondet.Int64("id"),
+		F64: fl[v%4],
+		F32: float32(fl[(v+1)%3]),
+		ZF:  fl[v%2],
+		T:   tm[v%3],
+		Txt: c13Text{byte('a' + v), 'j'},
+		Bin: c13Bin{byte(v * 50)},
+	}
+	if nondet.Choice("ptrs", 2) == 1 {
+		f := fl[(v+2)%4]
+		x.PF = &f
+		t := tm[(v+1)%3]
+		x.PT = &t
+		x.PTxt = &c13Text{byte('A' + v), 'k'}
+		x.PBin = &c13Bin{byte(v)}
+	}
+	vals, err := s.UnbuildStruct("xrows", x)
+	nondet.Assert(err == nil, "unbuild-ok")
+	if err != nil {
+		return
+	}
+	asString := nondet.Choice("source", 2) == 1
+	row := make([]driver.Value, len(vals))
+	for i, v := range vals {
+		row[i] = v
+		switch v.(type) {
+		case nil, int64, float64, bool, []byte, string, time.Time:
+		default:
+			nondet.Assert(false, "driver-value-kind")
+		}
+		// text columns (7, 8) may come back as string; binary columns stay []byte
+		if b, ok := v.([]byte); ok && asString && (i == 7 || i == 8) {
+			row[i] = string(b)
+		}
+	}
+	nondet.Assert((row[3] == nil) == (x.PF == nil), "nil-is-sql-null")
+	nondet.Assert((row[6] == nil) == (x.PT == nil), "nil-is-sql-null")
+	nondet.Assert((row[8] == nil) == (x.PTxt == nil), "nil-is-sql-null")
+	nondet.Assert((row[10] == nil) == (x.PBin == nil), "nil-is-sql-null")
+	nondet.Assert((row[4] == nil) == (x.ZF == 0), "implicit-null")
+	back, err := s.BuildStruct("xrows", row)
+	nondet.Assert(err == nil, "build-ok")
+	if err != nil {
+		return
+	}
+	y := back.(*c13XRow)
+	nondet.Assert(y.Id == x.Id && y.F64 == x.F64 && y.F32 == x.F32 && y.ZF == x.ZF, "struct-equal")
+	nondet.Assert((y.PF == nil) == (x.PF == nil), "nil-pointer-kept")
+	if x.PF != nil && y.PF != nil {
+		nondet.Assert(*y.PF == *x.PF, "struct-equal")
+	}
+	nondet.Assert(y.T.Equal(x.T), "struct-equal")
+	nondet.Assert((y.PT == nil) == (x.PT == nil), "nil-pointer-kept")
+	if x.PT != nil && y.PT != nil {
+		nondet.Assert(y.PT.Equal(*x.PT), "struct-equal")
+	}
+	nondet.Assert(y.Txt == x.Txt && y.Bin == x.Bin, "struct-equal")
+	nondet.Assert((y.PTxt == nil) == (x.PTxt == nil), "nil-pointer-kept")
+	if x.PTxt != nil && y.PTxt != nil {
+		nondet.Assert(*y.PTxt == *x.PTxt, "struct-equal")
+	}
+	nondet.Assert((y.PBin == nil) == (x.PBin == nil), "nil-pointer-kept")
+	if x.PBin != nil && y.PBin != nil {
+		nondet.Assert(*y.PBin == *x.PBin, "struct-equal")
+	}
+	// a filter made from the row's own values matches it
+	t, err := s.MakeTester("xrows", Filter{"f64": x.F64, "f32": x.F32, "txt": x.Txt, "bin": x.Bin, "p_f": x.PF})
+	nondet.Assert(err == nil, "tester-built")
+	if err == nil {
+		nondet.Assert(t.Test(x), "own-filter-matches")
+	}
+	nondet.Cover("extras-round-trip")
 }
